@@ -296,7 +296,7 @@ class RTCMMessage:
         nsig = 0
         for idx in range(33):
             if getattr(self, "DF395") >> (32 - idx) & 1:
-                sgc = sigmap.get(idx, NA)
+                sgc = sigmap.get(idx, (NA, NA))
                 fqc = sgc[1] if sigcode else sgc[0]
                 sigs.append(fqc)
                 nsig += 1
